@@ -3,6 +3,7 @@ use crate::common::*;
 use crate::model::*;
 use crate::node::*;
 use crate::plan::*;
+use crate::powmodel::{self, NonceMode, PowKind};
 use crate::statecheck::check_snapshot;
 use crate::vfail;
 use ckb_shared::block_status::BlockStatus;
@@ -21,10 +22,11 @@ pub fn spec() -> CheckSpec {
     CheckSpec {
         id: "C03",
         level: "exploration",
-        rule: "proptest: a random valid history (reference model) drives a real node to a context past an epoch boundary and the proposal window; then a sequence of candidate blocks built on the tip (or on a side branch 1-3 blocks below it): boundary-valid candidates (timestamp = median+1 and = now+15000, extension of 32 and 96 bytes, maximum uncles, proposals at the limit, commits at exactly w_close and w_far; rival branches that overtake the chain and are overtaken again so that previously verified blocks are re-attached) that must be attached, and single-rule mutations (63 operators: header number/epoch/timestamp/parent, cellbase count/position/outputs/data/type/witness/since, roots and hashes, duplicates, limits, extension shape and chain root, uncle epoch/number/descent/duplicate/double inclusion/count/proposals, commit outside the window on both sides, unproposed commit, double spend, unknown input, reward +-1 / lock / premature output / output although the finalised reward cannot create the cell, each DAO component +-1, compact target) that must be refused through the miner's submit pipeline with tip, total difficulty and the full C02 column scan unchanged, the block remembered as invalid, and every descendant refused. Every operator keeps all other commitments consistent (the model recomputes DAO, reward, roots for the mutated body). Non-trivial = candidate evaluated in a context of height >= w_far+2 past >=1 epoch boundary; distinct by hash of (plan, operator sequence index).",
+        rule: "proptest: a random valid history (reference model) drives a real node to a context past an epoch boundary and the proposal window; then a sequence of candidate blocks built on the tip (or on a side branch 1-3 blocks below it): boundary-valid candidates (timestamp = median+1 and = now+15000, extension of 32 and 96 bytes, maximum uncles, proposals at the limit, commits at exactly w_close and w_far; rival branches that overtake the chain and are overtaken again so that previously verified blocks are re-attached) that must be attached, and single-rule mutations (63 operators: header number/epoch/timestamp/parent, cellbase count/position/outputs/data/type/witness/since, roots and hashes, duplicates, limits, extension shape and chain root, uncle epoch/number/descent/duplicate/double inclusion/count/proposals, commit outside the window on both sides, unproposed commit, double spend, unknown input, reward +-1 / lock / premature output / output although the finalised reward cannot create the cell, each DAO component +-1, compact target) that must be refused through the miner's submit pipeline with tip, total difficulty and the full C02 column scan unchanged, the block remembered as invalid, and every descendant refused. Every operator keeps all other commitments consistent (the model recomputes DAO, reward, roots for the mutated body). Non-trivial = candidate evaluated in a context of height >= w_far+2 past >=1 epoch boundary; distinct by hash of (plan, operator sequence index). Sub-check pow: the same contexts, operators and scenarios on specs whose engine is Eaglesong / EaglesongBlake2b (dynamic difficulty, genesis targets around 2^248): every block and uncle of the history and of the candidates carries a nonce found by the harness's own search against an independent PoW reference (header bytes assembled field by field, blake2b, eaglesong crate, own compact-target decoding; ckb-pow is never asked), edited headers are sealed again so the edit stays the only broken rule; PoW candidates: the valid nonce closest below the target among the tried ones, the invalid nonce with the smallest excess, arbitrary nonces / a valid nonce with a high bit flipped / +1 (the reference decides), a nonce that meets the target only under the other engine's hash, headers claiming another target (doubled with a nonce meeting only the claimed one, halved, another encoding of the same number, ^1, the largest encodable target) with a nonce valid for the claimed target (must pass the header check and be refused by the epoch check), target encodings no hash can meet (zero mantissa, mantissa shifted out, exponent > 32), and the same for uncles (closest below, smallest excess, arbitrary, other engine, doubled target, second of two uncles). Sub-check limit-bytes: the spec's max_block_bytes is set per case relative to the history (equal to the largest history block, +1, or 1.5-12 kB); candidates padded (cellbase witness message, a committed transaction's witness, with block proposals, with uncles that carry proposals) to a counted size of exactly limit-1 / limit (attached) / limit+1 (refused as a whole), the counted size derived from the molecule layout (block minus the uncles' proposal ids) and compared with the repository's size functions; plus proposals = limit / +1, uncles = max / +1, an uncle's proposals = limit / +1 on the same specs. Sub-check limit-cycles: a candidate committing 1-12 plain transactions is first attached on a reference node with the default cycle limit where its recorded cycles are read; a second node whose spec has max_block_cycles = that sum / sum+1 / sum-1 gets the same chain: attached iff sum <= limit (one transaction over the limit fails in the script run, several in the block sum), state unchanged on refusal, and the recorded cycles equal on both nodes.",
         assumptions: &[
-            "proof-of-work is the Dummy engine in these specs (every nonce valid); PoW acceptance is checked in C07",
-            "block size / cycle limits at the exact boundary are not generated in this tier",
+            "sub-check context-x-candidates runs on Dummy-engine specs (every nonce valid); real proof of work is exercised by sub-check pow at genesis targets around 2^248 (a few hundred to a few thousand hashes per block)",
+            "limit-cycles takes the cost of a transaction from a reference node running the same code under the default limit (the VM's cycle accounting itself is C05's subject); what is decided here is the comparison with max_block_cycles at distance 0 and 1",
+            "limit-bytes / limit-cycles set the limit through the chain spec parameter per case; limits are not part of the genesis block (checked: same genesis hash)",
         ],
         workers: |_| 8,
         watchdog_s: |t| t.pick(1500, 7200),
@@ -84,6 +86,66 @@ fn variant_cfg(variant: u8) -> SpecCfg {
         }
     }
     c
+}
+
+/// specs with a real proof-of-work engine.  The difficulty is dynamic there (the permanent-difficulty
+/// switch only exists for Dummy): the genesis epoch is short, later epochs double in length, the target
+/// moves with the generated timestamps.  Genesis targets of about 2^248 (one hash in ~256 meets it).
+fn pow_variant_cfg(variant: u8) -> SpecCfg {
+    let mut c = SpecCfg {
+        max_block_proposals_limit: Some(6),
+        permanent_difficulty: false,
+        ..Default::default()
+    };
+    match variant % 4 {
+        0 => {
+            c.pow = 1;
+            c.genesis_epoch_length = 5;
+            c.proposal_window = (2, 4);
+        }
+        1 => {
+            c.pow = 2;
+            c.genesis_epoch_length = 5;
+            c.proposal_window = (1, 2);
+        }
+        2 => {
+            // 0xff0000 * 256^28: has a second encoding (0x2000ff00) that does not raise the overflow flag
+            c.pow = 2;
+            c.genesis_epoch_length = 4;
+            c.proposal_window = (2, 10);
+            c.genesis_compact_target = Some(0x1fff_0000);
+        }
+        _ => {
+            c.pow = 1;
+            c.genesis_epoch_length = 6;
+            c.proposal_window = (2, 4);
+            c.genesis_compact_target = Some(0x2001_8000);
+            c.epoch_duration_target = 96;
+        }
+    }
+    c
+}
+
+fn plan_params() -> PlanParams {
+    PlanParams {
+        min_blocks: 10,
+        max_blocks: 26,
+        fork_pct: 15,
+        tx_rate: 45,
+        invalid_pct: 0,
+        uncle_pct: 10,
+        dao_pct: 0,
+    }
+}
+
+fn pow_case_strategy() -> impl Strategy<Value = Case> {
+    let op = prop_oneof![5 => 100u8..(100 + N_POW_OPS), 2 => 0u8..N_OPS];
+    (
+        0u8..4,
+        tree_plan_strategy(plan_params()),
+        proptest::collection::vec((op, 0u8..8, any::<u16>()), 10..22),
+    )
+        .prop_map(|(variant, plan, ops)| Case { variant, plan, ops })
 }
 
 fn case_strategy() -> impl Strategy<Value = Case> {
@@ -169,6 +231,9 @@ impl World<'_> {
     }
     /// a sibling of an ancestor usable as an uncle of a child of `parent` (same epoch)
     fn make_uncle(&self, parent: &H, sel: u16) -> Option<UncleBlockView> {
+        self.make_uncle_with(parent, sel, vec![])
+    }
+    fn make_uncle_with(&self, parent: &H, sel: u16, proposals: Vec<ProposalShortId>) -> Option<UncleBlockView> {
         let p = self.tree.get(parent);
         let new_epoch_start = p.number + 1 >= p.epoch.start_number() + p.epoch.length();
         if new_epoch_start || p.number < 1 {
@@ -182,6 +247,7 @@ impl World<'_> {
         let mut spec = self.plain_spec(&gp.hash);
         spec.timestamp += 7 + sel as u64 % 5;
         spec.message.extend_from_slice(&[0xee, sel as u8]);
+        spec.proposals = proposals;
         let u = self.tree.build(&gp.hash, &spec, &self.opts()).ok()?;
         if u.block.epoch().number() != p.epoch.number() {
             return None;
@@ -204,8 +270,23 @@ struct Cand {
 }
 
 fn rehash(mb: &mut MBlock, b: BlockView) {
+    // total difficulty counts what the header claims (a stored side block weighs its claimed difficulty
+    // until its branch is verified)
+    let (old, new) = (mb.block.compact_target(), b.compact_target());
+    if old != new && powmodel::target_of(new).is_some() {
+        mb.td = mb.td.clone() - difficulty_of_compact(old) + difficulty_of_compact(new);
+    }
     mb.hash = b.hash();
     mb.block = b;
+}
+
+/// real-PoW specs: search the nonce of an edited block again (first nonce meeting the target that the
+/// edited header claims); unchanged under Dummy or when the claimed target cannot be met
+fn reseal(pow: Option<PowKind>, b: BlockView) -> BlockView {
+    match pow {
+        Some(k) => powmodel::seal(k, &b, b.header().nonce(), NonceMode::Mine).unwrap_or(b),
+        None => b,
+    }
 }
 
 /// produce the candidate for operator `op` on `parent`; None = not applicable in this context
@@ -224,10 +305,16 @@ fn make(w: &mut World, op: u8, parent: &H, aux: u16) -> Option<Cand> {
         .unwrap_or(false);
     let median = w.tree.median_time(parent);
     let limit = env.consensus.max_block_proposals_limit() as usize;
+    if op >= 100 {
+        return make_pow(w, op, parent, aux);
+    }
+    let powk = w.tree.pow;
     let build = |w: &World, spec: &BlockSpec, o: &BuildOpts| w.tree.build(parent, spec, o).ok();
+    // under a real PoW engine an edited header is sealed again (nonce search against the target the
+    // edited header claims), so that the edit stays the only broken rule
     let edit = |mb: Option<MBlock>, f: &dyn Fn(&BlockView) -> BlockView| {
         mb.map(|mut m| {
-            let b = f(&m.block);
+            let b = reseal(powk, f(&m.block));
             rehash(&mut m, b);
             m
         })
@@ -278,6 +365,11 @@ fn make(w: &mut World, op: u8, parent: &H, aux: u16) -> Option<Cand> {
         5 => {
             spec.proposals = fake_ids(limit, aux);
             (build(w, &spec, &o), Class::Valid, "valid:proposals=limit")
+        }
+        6 => {
+            let u = w.make_uncle_with(parent, aux, fake_ids(limit, aux.wrapping_add(1)))?;
+            spec.uncles = vec![u];
+            (build(w, &spec, &o), Class::Valid, "valid:uncle-proposals=limit")
         }
         // ---------------- header level
         10 => (edit(build(w, &spec, &o), &|b| b.as_advanced_builder().number(n + 1).build()), Class::Header, "header:number+1"),
@@ -572,7 +664,7 @@ fn make(w: &mut World, op: u8, parent: &H, aux: u16) -> Option<Cand> {
         }
         62 => {
             let u = w.make_uncle(parent, aux)?;
-            let bad = ub(&u).number(n).build().as_uncle();
+            let bad = reseal(powk, ub(&u).number(n).build()).as_uncle();
             spec.uncles = vec![bad];
             (build(w, &spec, &o), Class::Chain, "uncle:number>=block-number")
         }
@@ -625,7 +717,7 @@ fn make(w: &mut World, op: u8, parent: &H, aux: u16) -> Option<Cand> {
             let u = w.make_uncle(parent, aux)?;
             let mut h = [0x3cu8; 32];
             h[1] = aux as u8;
-            let bad = ub(&u).parent_hash(Byte32::from_slice(&h).unwrap()).build().as_uncle();
+            let bad = reseal(powk, ub(&u).parent_hash(Byte32::from_slice(&h).unwrap()).build()).as_uncle();
             spec.uncles = vec![bad];
             (build(w, &spec, &o), Class::Chain, "uncle:unknown-parent")
         }
@@ -641,7 +733,7 @@ fn make(w: &mut World, op: u8, parent: &H, aux: u16) -> Option<Cand> {
         }
         69 => {
             let u = w.make_uncle(parent, aux)?;
-            let bad = ub(&u).compact_target(u.compact_target() ^ 1).build().as_uncle();
+            let bad = reseal(powk, ub(&u).compact_target(u.compact_target() ^ 1).build()).as_uncle();
             spec.uncles = vec![bad];
             (build(w, &spec, &o), Class::Chain, "uncle:wrong-target")
         }
@@ -649,19 +741,216 @@ fn make(w: &mut World, op: u8, parent: &H, aux: u16) -> Option<Cand> {
             let u = w.make_uncle(parent, aux)?;
             let mut ids = fake_ids(2, aux);
             ids.push(ids[0].clone());
-            let bad = ub(&u).proposals(ids).build().as_uncle();
+            let bad = reseal(powk, ub(&u).proposals(ids).build()).as_uncle();
             spec.uncles = vec![bad];
             (build(w, &spec, &o), Class::Chain, "uncle:duplicate-proposals")
         }
         71 => {
             let u = w.make_uncle(parent, aux)?;
-            let bad = ub(&u).proposals(fake_ids(limit + 1, aux)).build().as_uncle();
+            let bad = reseal(powk, ub(&u).proposals(fake_ids(limit + 1, aux)).build()).as_uncle();
             spec.uncles = vec![bad];
             (build(w, &spec, &o), Class::Chain, "uncle:proposals-over-limit")
         }
         _ => return None,
     };
     mb.map(|mb| Cand { mb, class, name })
+}
+
+
+// ------------------------------------------------------------------------------------------------
+// `pow` family: candidates that only make sense under a real proof-of-work engine
+// ------------------------------------------------------------------------------------------------
+
+/// how far the PoW output of a header lies from the target it claims (relative, leading 64 bits)
+fn margin_label(kind: PowKind, h: &ckb_types::core::HeaderView, prefix: &str) -> String {
+    let Some(t) = powmodel::target_of(h.compact_target()) else {
+        return format!("{prefix}:unmeetable-target");
+    };
+    let out = powmodel::pow_output(kind, &powmodel::pow_hash(h), h.nonce());
+    let below = out <= t;
+    let (o, t) = (powmodel::top64(&out) as u128, (powmodel::top64(&t) as u128).max(1));
+    let d = if o <= t { t - o } else { o - t };
+    let pm = d * 1000 / t;
+    let bucket = if pm < 1 {
+        "<0.1%"
+    } else if pm < 10 {
+        "<1%"
+    } else if pm < 100 {
+        "<10%"
+    } else {
+        ">=10%"
+    };
+    format!("{prefix}:{}-by{bucket}-of-target", if below { "below-or-at" } else { "above" })
+}
+
+/// a nonce whose output meets `claimed` but not `true_compact`'s target
+fn seal_between(kind: PowKind, b: &BlockView, start: u128, true_compact: u32) -> Option<BlockView> {
+    let hi = powmodel::target_of(b.compact_target())?;
+    let lo = powmodel::target_of(true_compact)?;
+    let ph = powmodel::pow_hash(&b.header());
+    let mut n = start;
+    for _ in 0..powmodel::PROBE_CAP {
+        let out = powmodel::pow_output(kind, &ph, n);
+        if out <= hi && out > lo {
+            return Some(powmodel::with_header(b, Some(n), None));
+        }
+        n = n.wrapping_add(1);
+    }
+    None
+}
+
+const N_POW_OPS: u8 = 14;
+
+fn make_pow(w: &mut World, op: u8, parent: &H, aux: u16) -> Option<Cand> {
+    let kind = w.tree.pow?;
+    let mut spec = w.plain_spec(parent);
+    let start: u128 = ((aux as u128) << 24) | ((w.serial.get() as u128) << 48);
+    spec.nonce = start;
+    let mut o = w.opts();
+    let build = |w: &World, spec: &BlockSpec, o: &BuildOpts| w.tree.build(parent, spec, o).ok();
+    // class of a finished candidate whose nonce was not searched for validity: the model decides
+    let by_model = |mb: MBlock, valid: &'static str, invalid: &'static str| -> Cand {
+        if powmodel::pow_valid(kind, &mb.block.header()) {
+            Cand { mb, class: Class::Valid, name: valid }
+        } else {
+            Cand { mb, class: Class::Header, name: invalid }
+        }
+    };
+    // an uncle with another nonce (everything else of its header untouched)
+    let uncle_sealed = |u: &UncleBlockView, mode: NonceMode, nonce: u128| -> Option<UncleBlockView> {
+        powmodel::seal(kind, &ub(u).build_unchecked(), nonce, mode).map(|b| b.as_uncle())
+    };
+    match op {
+        100 => {
+            o.nonce_mode = NonceMode::ClosestBelow;
+            build(w, &spec, &o).map(|mb| Cand { mb, class: Class::Valid, name: "valid:pow-closest-below-target" })
+        }
+        101 => {
+            o.nonce_mode = NonceMode::SmallestExcess;
+            build(w, &spec, &o).map(|mb| Cand { mb, class: Class::Header, name: "pow:smallest-excess-over-target" })
+        }
+        102 => {
+            o.nonce_mode = NonceMode::Fixed;
+            spec.nonce = (aux as u128).wrapping_mul(0x9e37_79b9_7f4a_7c15_f39c_c060_5ced_c835) ^ start;
+            build(w, &spec, &o).map(|mb| by_model(mb, "valid:pow-arbitrary-nonce-meets-target", "pow:arbitrary-nonce"))
+        }
+        103 => {
+            o.nonce_mode = NonceMode::OtherEngineOnly;
+            build(w, &spec, &o).map(|mb| Cand { mb, class: Class::Header, name: "pow:meets-target-under-the-other-engine-only" })
+        }
+        104 | 105 => {
+            // a nonce next to a valid one: a high bit flipped (the nonce is 128 bits wide) or +1
+            let first = build(w, &spec, &o)?;
+            let n = first.block.header().nonce();
+            o.nonce_mode = NonceMode::Fixed;
+            spec.nonce = if op == 104 { n ^ (1u128 << (64 + aux % 64)) } else { n.wrapping_add(1) };
+            build(w, &spec, &o).map(|mb| {
+                if op == 104 {
+                    by_model(mb, "valid:pow-arbitrary-nonce-meets-target", "pow:valid-nonce-with-a-high-bit-flipped")
+                } else {
+                    by_model(mb, "valid:pow-arbitrary-nonce-meets-target", "pow:valid-nonce+1")
+                }
+            })
+        }
+        106 => {
+            // the header claims a target that is not its epoch's and carries a nonce that is valid for
+            // the claimed target: the header check passes, the contextual epoch check must refuse
+            let mut mb = build(w, &spec, &o)?;
+            let c = mb.block.compact_target();
+            let (claimed, name, only_claimed) = match aux % 4 {
+                0 => (powmodel::scale_compact(c, true)?, "epoch:compact-target-doubled-pow-meets-only-the-claimed-target", true),
+                1 => (powmodel::scale_compact(c, false)?, "epoch:compact-target-halved-with-valid-pow", false),
+                2 => (
+                    powmodel::other_encoding(c).filter(|x| powmodel::target_of(*x).is_some())?,
+                    "epoch:compact-target-other-encoding-of-the-same-target",
+                    false,
+                ),
+                _ => (c ^ 1, "epoch:compact-target^1-with-valid-pow", false),
+            };
+            let b = powmodel::with_header(&mb.block, None, Some(claimed));
+            let b = if only_claimed { seal_between(kind, &b, start, c)? } else { powmodel::seal(kind, &b, start, NonceMode::Mine)? };
+            rehash(&mut mb, b);
+            Some(Cand { mb, class: Class::Chain, name })
+        }
+        107 => {
+            // probes on the target encoding: values no hash can meet (zero mantissa, mantissa shifted out,
+            // exponent above 32) are refused by the header check; the largest encodable target with a
+            // valid nonce passes it and must be refused by the epoch check
+            let mut mb = build(w, &spec, &o)?;
+            let c = mb.block.compact_target();
+            let mut list: Vec<u32> = vec![0, 0x2000_0000, 0x0100_0000, 0x0200_00ff, 0x2100_0001, 0x2101_0000, 0x2200_0100, 0xff00_0001, 0x20ff_ffff, 0x2100_0000];
+            if let Some(x) = powmodel::other_encoding(c) {
+                list.push(x);
+                list.push(x);
+            }
+            let claimed = list[aux as usize % list.len()];
+            if claimed == c {
+                return None;
+            }
+            let b = powmodel::with_header(&mb.block, None, Some(claimed));
+            match powmodel::target_of(claimed) {
+                None => {
+                    rehash(&mut mb, b);
+                    Some(Cand { mb, class: Class::Header, name: "pow:target-encoding-no-hash-can-meet" })
+                }
+                Some(_) => {
+                    let b = powmodel::seal(kind, &b, start, NonceMode::Mine)?;
+                    rehash(&mut mb, b);
+                    Some(Cand { mb, class: Class::Chain, name: "epoch:compact-target-other-meetable-encoding-with-valid-pow" })
+                }
+            }
+        }
+        108 => {
+            let u = uncle_sealed(&w.make_uncle(parent, aux)?, NonceMode::ClosestBelow, start)?;
+            spec.uncles = vec![u];
+            build(w, &spec, &o).map(|mb| Cand { mb, class: Class::Valid, name: "valid:uncle-pow-closest-below-target" })
+        }
+        109 => {
+            let u = uncle_sealed(&w.make_uncle(parent, aux)?, NonceMode::SmallestExcess, start)?;
+            spec.uncles = vec![u];
+            build(w, &spec, &o).map(|mb| Cand { mb, class: Class::Chain, name: "uncle:pow-smallest-excess-over-target" })
+        }
+        110 => {
+            let nonce = (aux as u128).wrapping_mul(0xc2b2_ae3d_27d4_eb4f_1656_67b1_9e37_79f9) ^ start;
+            let u = uncle_sealed(&w.make_uncle(parent, aux)?, NonceMode::Fixed, nonce)?;
+            let ok = powmodel::pow_valid(kind, &u.header());
+            spec.uncles = vec![u];
+            build(w, &spec, &o).map(|mb| {
+                if ok {
+                    Cand { mb, class: Class::Valid, name: "valid:uncle-arbitrary-nonce-meets-target" }
+                } else {
+                    Cand { mb, class: Class::Chain, name: "uncle:pow-arbitrary-nonce" }
+                }
+            })
+        }
+        111 => {
+            let u = uncle_sealed(&w.make_uncle(parent, aux)?, NonceMode::OtherEngineOnly, start)?;
+            spec.uncles = vec![u];
+            build(w, &spec, &o).map(|mb| Cand { mb, class: Class::Chain, name: "uncle:pow-meets-target-under-the-other-engine-only" })
+        }
+        112 => {
+            // an uncle claiming twice the epoch's target with a nonce that meets only the claimed one
+            let u = w.make_uncle(parent, aux)?;
+            let c = u.compact_target();
+            let claimed = powmodel::scale_compact(c, true)?;
+            let b = powmodel::with_header(&ub(&u).build_unchecked(), None, Some(claimed));
+            let b = seal_between(kind, &b, start, c)?;
+            spec.uncles = vec![b.as_uncle()];
+            build(w, &spec, &o).map(|mb| Cand { mb, class: Class::Chain, name: "uncle:target-doubled-pow-meets-only-the-claimed-target" })
+        }
+        113 => {
+            // two uncles, only the second one's proof of work fails
+            let u1 = w.make_uncle(parent, aux)?;
+            let u2 = w.make_uncle(parent, aux.wrapping_add(3))?;
+            if u1.hash() == u2.hash() {
+                return None;
+            }
+            let u2 = uncle_sealed(&u2, NonceMode::SmallestExcess, start)?;
+            spec.uncles = vec![u1, u2];
+            build(w, &spec, &o).map(|mb| Cand { mb, class: Class::Chain, name: "uncle:second-uncle-pow-over-target" })
+        }
+        _ => None,
+    }
 }
 
 /// a transaction that may be committed on top of `parent` right now
@@ -688,6 +977,16 @@ fn evaluate(w: &mut World, cand: Cand, parent: &H, on_tip: bool, st: &mut Stats)
     let b = cand.mb.block.clone();
     let r = w.node.submit(&b);
     st.label(&format!("op:{name}"));
+    if let Some(k) = w.tree.pow {
+        let easy = powmodel::target_of(w.tree.get(parent).epoch.compact_target()).map(|t| t[0] >= 0x40).unwrap_or(false);
+        st.label(if easy { "pow-context:epoch-target>=2^254(most-hashes-meet-it)" } else { "pow-context:epoch-target<2^254" });
+        st.label(&margin_label(k, &b.header(), "pow-margin"));
+        if name.contains("uncle") {
+            if let Some(u) = b.uncles().into_iter().last() {
+                st.label(&margin_label(k, &u.header(), "uncle-pow-margin"));
+            }
+        }
+    }
     match cand.class {
         Class::Valid => {
             match &r {
@@ -993,31 +1292,58 @@ fn switch_back_scenario(w: &mut World, with_mutant: bool, aux: u16, st: &mut Sta
     Ok(())
 }
 
-fn prop(case: &Case, st: &mut Stats) -> Verdict {
-    let cfg = variant_cfg(case.variant);
-    let env = build_env(&cfg);
-    let built = Interp::new(&env).run(&case.plan);
+/// start a node on `env`, feed it every block of the model tree in creation order (all must be accepted)
+fn start_world<'a>(
+    env: &'a Env,
+    tree: Tree,
+    txs: BTreeMap<[u8; 10], TransactionView>,
+    clock: ckb_systemtime::FaketimeGuard,
+    serial: u32,
+) -> Result<World<'a>, Violation> {
     install_panic_recorder();
     clear_panics();
-    let clock = ckb_systemtime::faketime();
-    let max_ts = built.blocks.iter().map(|h| built.tree.get(h).block.timestamp()).max().unwrap_or(0);
+    let max_ts = tree.order.iter().map(|h| tree.get(h).block.timestamp()).max().unwrap_or(0);
     clock.set_faketime(max_ts + 1_000_000);
-    let node = Node::start(&env, NodeCfg::default()).map_err(|e| Violation::new("harness:node-start", e))?;
-    for h in &built.blocks {
-        let b = built.tree.get(h);
+    let node = Node::start(env, NodeCfg::default()).map_err(|e| Violation::new("harness:node-start", e))?;
+    for h in tree.order.iter().skip(1) {
+        let b = tree.get(h);
         if let Err(e) = node.process(&b.block) {
             vfail!("context:valid-history-block-refused", "history block #{} refused: {e}", b.number);
         }
     }
-    let mut w = World {
-        env: &env,
-        tree: built.tree,
+    Ok(World {
+        env,
+        tree,
         node,
-        txs: built.txs,
+        txs,
         now: max_ts + 1_000_000,
         _clock: clock,
-        serial: std::cell::Cell::new(0),
-    };
+        serial: std::cell::Cell::new(serial),
+    })
+}
+
+fn prop(case: &Case, st: &mut Stats) -> Verdict {
+    prop_cfg(case, &variant_cfg(case.variant), st)
+}
+
+/// the `pow` sub-check: the same contexts and operators under a real proof-of-work engine
+fn prop_pow(case: &Case, st: &mut Stats) -> Verdict {
+    prop_cfg(case, &pow_variant_cfg(case.variant), st)
+}
+
+fn prop_cfg(case: &Case, cfg: &SpecCfg, st: &mut Stats) -> Verdict {
+    let env = build_env(cfg);
+    let built = Interp::new(&env).run(&case.plan);
+    let mut w = start_world(&env, built.tree, built.txs, ckb_systemtime::faketime(), 0)?;
+    if let Some(k) = w.tree.pow {
+        // every history block carries a nonce found by the harness; the model agrees it is valid
+        for h in w.tree.order.iter().skip(1) {
+            if !powmodel::pow_valid(k, &w.tree.get(h).block.header()) {
+                return Err(Violation::new("harness:mined-block-fails-the-pow-model", "history block without a valid nonce"));
+            }
+        }
+        st.label_n("pow:history-blocks-mined", w.tree.order.len() as u64 - 1);
+    }
     let (_, far) = w.tree.window();
     for (i, (op, depth, aux)) in case.ops.iter().enumerate() {
         let tip = w.tip();
@@ -1028,7 +1354,7 @@ fn prop(case: &Case, st: &mut Stats) -> Verdict {
         // (timestamps may legally decrease along a chain down to median+1, so take the maximum)
         let now = w.tree.order.iter().map(|h| w.tree.get(h).block.timestamp()).max().unwrap_or(0) + 100_000;
         w.set_now(now);
-        if *op >= 78 {
+        if (78..100).contains(op) {
             insufficient_reward_scenario(&mut w, *op == 79, *aux, st).map_err(|mut v| {
                 v.detail = format!("[op {i}] {}", v.detail);
                 v
@@ -1038,7 +1364,7 @@ fn prop(case: &Case, st: &mut Stats) -> Verdict {
             }
             continue;
         }
-        if *op >= 76 {
+        if (76..100).contains(op) {
             switch_back_scenario(&mut w, *op == 77, *aux, st).map_err(|mut v| {
                 v.detail = format!("[op {i}] {}", v.detail);
                 v
@@ -1048,7 +1374,7 @@ fn prop(case: &Case, st: &mut Stats) -> Verdict {
             }
             continue;
         }
-        if *op >= 72 {
+        if (72..100).contains(op) {
             commit_window_scenario(&mut w, op - 72, *aux, st)?;
             if tipn >= far + 2 && past_boundary {
                 st.nontrivial(&(serde_json::to_string(&case.plan).unwrap(), i, *op));
@@ -1077,8 +1403,9 @@ fn prop(case: &Case, st: &mut Stats) -> Verdict {
         })?;
         if tipn >= far + 2 && past_boundary {
             st.nontrivial(&(serde_json::to_string(&case.plan).unwrap(), i, *op));
-            if st.want_sample() {
-                st.sample(|| json!({"variant": case.variant, "context_height": tipn, "epoch": w.tree.get(&tip).epoch.number(), "operator": op, "on_tip": on_tip, "expected_valid": valid}));
+            // the sample slots are shared by the four sub-checks: 3 / 1 / 1 / 1
+            if st.want_sample() && st.samples.len() < if w.tree.pow.is_some() { 4 } else { 3 } {
+                st.sample(|| json!({"variant": case.variant, "pow": w.tree.pow.map(|k| k.name()).unwrap_or("dummy"), "context_height": tipn, "epoch": w.tree.get(&tip).epoch.number(), "operator": op, "on_tip": on_tip, "expected_valid": valid}));
             }
         }
     }
@@ -1086,16 +1413,424 @@ fn prop(case: &Case, st: &mut Stats) -> Verdict {
     Ok(())
 }
 
-fn run(ctx: &Ctx) {
-    ctx.shrink_iters.set(100);
-    let cases = ctx.cases(1500, 12000);
-    ctx.run_prop("context-x-candidates", cases, case_strategy(), prop);
+// ------------------------------------------------------------------------------------------------
+// exact limits: serialized size (sub-check `limit-bytes`) and summed cycles (`limit-cycles`)
+// ------------------------------------------------------------------------------------------------
+
+#[derive(Clone, Debug, Serialize, Deserialize)]
+pub struct SizeCase {
+    pub variant: u8,
+    pub plan: TreePlan,
+    /// how the size limit of the spec relates to the largest history block (see `prop_size`)
+    pub base: u8,
+    /// (how the candidate is filled, distance selector, aux)
+    pub probes: Vec<(u8, u8, u16)>,
 }
 
-fn replay(ctx: &Ctx, _sub: &str, v: &Value) -> Verdict {
-    let c: Case = from_case(v)?;
+fn size_case_strategy() -> impl Strategy<Value = SizeCase> {
+    (
+        0u8..3,
+        tree_plan_strategy(plan_params()),
+        0u8..5,
+        proptest::collection::vec((0u8..6, 0u8..5, any::<u16>()), 6..14),
+    )
+        .prop_map(|(variant, plan, base, probes)| SizeCase { variant, plan, base, probes })
+}
+
+const SIZE_NAMES: [[&str; 3]; 5] = [
+    [
+        "valid:bytes=limit-1:cellbase-message-padding",
+        "valid:bytes=limit:cellbase-message-padding",
+        "limit:bytes=limit+1:cellbase-message-padding",
+    ],
+    [
+        "valid:bytes=limit-1:tx-witness-padding",
+        "valid:bytes=limit:tx-witness-padding",
+        "limit:bytes=limit+1:tx-witness-padding",
+    ],
+    [
+        "valid:bytes=limit-1:uncles-with-proposals",
+        "valid:bytes=limit:uncles-with-proposals",
+        "limit:bytes=limit+1:uncles-with-proposals",
+    ],
+    [
+        "valid:bytes=limit-1:block-proposals",
+        "valid:bytes=limit:block-proposals",
+        "limit:bytes=limit+1:block-proposals",
+    ],
+    [
+        "valid:bytes=limit-1:uncles+proposals+tx-witness",
+        "valid:bytes=limit:uncles+proposals+tx-witness",
+        "limit:bytes=limit+1:uncles+proposals+tx-witness",
+    ],
+];
+
+/// a candidate on `parent` whose counted size is exactly `want` bytes; Ok(None) = the unpadded block is
+/// already larger (or the filling is not available in this context)
+fn sized_candidate(w: &mut World, how: u8, parent: &H, aux: u16, want: u64, st: &mut Stats) -> Result<Option<(MBlock, u8)>, Violation> {
+    let limit = w.env.consensus.max_block_proposals_limit() as usize;
+    let n = w.tree.get(parent).number + 1;
+    let ids = |k: usize, salt: u16| -> Vec<ProposalShortId> {
+        (0..k)
+            .map(|i| {
+                let mut a = [0u8; 10];
+                a[0] = 0xfb;
+                a[1] = i as u8;
+                a[2] = salt as u8;
+                a[3] = (salt >> 8) as u8;
+                a[4] = n as u8;
+                ProposalShortId::new(a)
+            })
+            .collect()
+    };
+    let mut how = how % 5;
+    let mut base = w.plain_spec(parent);
+    let mut tx: Option<TransactionView> = None;
+    if how == 1 || how == 4 {
+        tx = commit_candidate(w, parent);
+        if tx.is_none() && how == 1 {
+            how = 0;
+        }
+    }
+    if how == 2 || how == 4 {
+        let k1 = 1 + aux as usize % limit.max(1);
+        let mut uncles = vec![];
+        if let Some(u) = w.make_uncle_with(parent, aux, ids(k1, aux)) {
+            uncles.push(u);
+        }
+        if aux % 3 == 0 {
+            if let Some(u) = w.make_uncle_with(parent, aux.wrapping_add(3), ids(limit, aux.wrapping_add(9))) {
+                if uncles.iter().all(|x| x.hash() != u.hash()) {
+                    uncles.push(u);
+                }
+            }
+        }
+        if uncles.is_empty() {
+            how = if how == 2 { 0 } else { 3 };
+        }
+        base.uncles = uncles;
+    }
+    if how == 3 || how == 4 {
+        base.proposals = ids(1 + (aux as usize >> 3) % limit.max(1), aux.wrapping_add(77));
+    }
+    let pad_tx = tx.is_some() && (how == 1 || how == 4);
+    let with_pad = |pad: usize| -> BlockSpec {
+        let mut s = base.clone();
+        if pad_tx {
+            let t = tx.clone().unwrap();
+            s.txs = vec![t.as_advanced_builder().witness(Bytes::from(vec![0x5a; pad]).pack()).build()];
+        } else {
+            s.message.extend(std::iter::repeat(0xab).take(pad));
+        }
+        s
+    };
+    let opts = w.opts();
+    let b0 = w.tree.build(parent, &with_pad(0), &opts).map_err(|e| Violation::new("harness:build", e))?;
+    let s0 = powmodel::size::block(&b0.block).0 as u64;
+    if s0 > want {
+        st.label("bytes:unpadded-candidate-already-over-the-limit");
+        return Ok(None);
+    }
+    let mb = w.tree.build(parent, &with_pad((want - s0) as usize), &opts).map_err(|e| Violation::new("harness:build", e))?;
+    let (counted, full) = powmodel::size::block(&mb.block);
+    // the layout model against the repository's size functions (the serializer is C15's subject, the
+    // definition of the counted size is this property's)
+    let repo_counted = mb.block.data().serialized_size_without_uncle_proposals();
+    let repo_full = mb.block.data().as_slice().len();
+    if full != repo_full {
+        vfail!("size:serialized-length-differs-from-the-layout-model", "block of {repo_full} bytes, layout model says {full}");
+    }
+    if counted != repo_counted {
+        vfail!(
+            "size:counted-size-differs-from-the-layout-model",
+            "serialized_size_without_uncle_proposals = {repo_counted}, layout model (block minus the uncles' proposal ids) = {counted}; full size {full}"
+        );
+    }
+    if counted as u64 != want {
+        return Err(Violation::new("harness:size-padding", format!("padded to {counted}, wanted {want}")));
+    }
+    if full > counted {
+        st.label("bytes:uncle-proposals-not-counted");
+        if full as u64 > w.env.consensus.max_block_bytes() && counted as u64 <= w.env.consensus.max_block_bytes() {
+            st.label("bytes:full-size-over-the-limit-counted-size-within");
+        }
+    }
+    Ok(Some((mb, how)))
+}
+
+fn prop_size(case: &SizeCase, st: &mut Stats) -> Verdict {
+    let mut cfg = variant_cfg(case.variant % 3);
+    let env_a = build_env(&cfg);
+    let built = Interp::new(&env_a).run(&case.plan);
+    let hist_max = built.blocks.iter().map(|h| powmodel::size::block(&built.tree.get(h).block).0).max().unwrap_or(0) as u64;
+    // the limit is a parameter of the spec, not of the genesis block: choose it relative to the history
+    let limit = match case.base % 5 {
+        0 => hist_max,
+        1 => hist_max + 1,
+        2 => hist_max.max(1_500),
+        3 => hist_max.max(4_000),
+        _ => hist_max.max(12_000),
+    };
+    cfg.max_block_bytes = Some(limit);
+    let env = build_env(&cfg);
+    if env.consensus.genesis_hash() != env_a.consensus.genesis_hash() {
+        return Err(Violation::new("harness:spec", "the size limit changed the genesis block"));
+    }
+    if limit == hist_max {
+        st.label("bytes:a-history-block-sits-exactly-at-the-limit");
+    }
+    let mut w = start_world(&env, built.tree, built.txs, ckb_systemtime::faketime(), 0)?;
+    let (_, far) = w.tree.window();
+    for (i, (how, dsel, aux)) in case.probes.iter().enumerate() {
+        let tip = w.tip();
+        let tipb = w.tree.get(&tip);
+        let tipn = tipb.number;
+        let past_boundary = tipb.epoch.number() >= 1;
+        let now = w.tree.order.iter().map(|h| w.tree.get(h).block.timestamp()).max().unwrap_or(0) + 100_000;
+        w.set_now(now);
+        let cand = if *how >= 5 {
+            // count limits next to the size limit: proposals = limit / +1, uncles = max / +1, an uncle's
+            // proposals = limit / +1
+            let op = [4u8, 5, 6, 33, 65, 71][*aux as usize % 6];
+            match make(&mut w, op, &tip, aux.rotate_left(5)) {
+                Some(c) => {
+                    // such a candidate is only a count probe if it also fits the size limit
+                    if powmodel::size::block(&c.mb.block).0 as u64 > limit {
+                        st.label("count:candidate-over-the-size-limit(skipped)");
+                        continue;
+                    }
+                    c
+                }
+                None => {
+                    st.label("op:not-applicable");
+                    continue;
+                }
+            }
+        } else {
+            let delta: i64 = [-1, 0, 0, 1, 1][*dsel as usize % 5];
+            let want = (limit as i64 + delta) as u64;
+            let Some((mb, how)) = sized_candidate(&mut w, *how, &tip, *aux, want, st).map_err(|mut v| {
+                v.detail = format!("[probe {i}] {}", v.detail);
+                v
+            })?
+            else {
+                continue;
+            };
+            st.label(&format!("bytes:distance-to-limit={delta:+}"));
+            Cand {
+                mb,
+                class: if delta <= 0 { Class::Valid } else { Class::Chain },
+                name: SIZE_NAMES[how as usize][(delta + 1) as usize],
+            }
+        };
+        let valid = cand.class == Class::Valid;
+        let name = cand.name;
+        evaluate(&mut w, cand, &tip, true, st).map_err(|mut v| {
+            v.detail = format!("[probe {i}, size limit {limit}] {}", v.detail);
+            v
+        })?;
+        if tipn >= far + 2 && past_boundary {
+            st.nontrivial(&(serde_json::to_string(&case.plan).unwrap(), case.base, i, *how, *dsel));
+            if st.want_sample() && st.samples.len() < 5 && i % 3 == 0 {
+                st.sample(|| json!({"sub": "limit-bytes", "variant": case.variant, "max_block_bytes": limit, "context_height": tipn, "candidate": name, "expected_valid": valid}));
+            }
+        }
+    }
+    w.node.stop();
+    Ok(())
+}
+
+#[derive(Clone, Debug, Serialize, Deserialize)]
+pub struct CycleCase {
+    pub variant: u8,
+    pub plan: TreePlan,
+    /// number of committed transactions in the candidate (1..=12) and inputs per transaction (1..=3)
+    pub ntx: u8,
+    pub nin: u8,
+    /// distance of the candidate's summed cycles to the limit of the tested spec
+    pub delta: u8,
+    pub aux: u16,
+}
+
+fn cycle_case_strategy() -> impl Strategy<Value = CycleCase> {
+    // the limit of the tested spec is tuned to the candidate, so the history must stay below it: histories
+    // without transactions for candidates of one or two transactions, sparse ones for larger candidates
+    let none = PlanParams { tx_rate: 0, ..plan_params() };
+    let few = PlanParams { tx_rate: 20, ..plan_params() };
+    let small = (0u8..3, tree_plan_strategy(none), 0u8..2, 0u8..3, 0u8..5, any::<u16>());
+    let large = (0u8..3, tree_plan_strategy(few), 3u8..12, 0u8..3, 0u8..5, any::<u16>());
+    prop_oneof![2 => small.boxed(), 3 => large.boxed()]
+        .prop_map(|(variant, plan, ntx, nin, delta, aux)| CycleCase { variant, plan, ntx, nin, delta, aux })
+}
+
+fn block_cycles(node: &Node, h: &H) -> Option<Vec<u64>> {
+    use ckb_store::ChainStore;
+    node.shared.store().get_block_ext(h).and_then(|e| e.cycles)
+}
+
+/// The cycles a block's transactions cost are measured on a reference node whose limit is far away
+/// (the spec's default); a second node gets the same blocks under a spec whose max_block_cycles is the
+/// measured sum + {0, -1, +1}.  Oracle: attached iff sum <= limit; the recorded cycles do not depend on
+/// the limit.
+fn prop_cycles(case: &CycleCase, st: &mut Stats) -> Verdict {
+    let mut cfg = variant_cfg(case.variant % 3);
+    cfg.max_block_proposals_limit = Some(16);
+    let env_a = build_env(&cfg);
+    let built = Interp::new(&env_a).run(&case.plan);
+    // ---- phase 1: reference node
+    let mut wa = start_world(&env_a, built.tree, built.txs, ckb_systemtime::faketime(), 0)?;
+    let (close, far) = wa.tree.window();
+    let tip = wa.tip();
+    let now = wa.tree.order.iter().map(|h| wa.tree.get(h).block.timestamp()).max().unwrap_or(0) + 100_000;
+    wa.set_now(now);
+    let k = 1 + case.ntx as usize % 12;
+    let mut avail = wa.spendable(&tip);
+    let mut txs: Vec<TransactionView> = vec![];
+    for i in 0..k {
+        let step = TxStep {
+            inputs: (0..=(case.nin % 3) as u16).map(|j| case.aux.wrapping_add((i as u16).wrapping_mul(7919)).wrapping_add(j.wrapping_mul(104_729u32 as u16))).collect(),
+            outputs: 1,
+            fee: 4,
+            data_len: 0,
+            lock_variant: (i % 4) as u8,
+            kind: 0,
+        };
+        if let Some(tx) = build_tx(wa.env, &step, &mut avail) {
+            let id = pid(&tx.proposal_short_id());
+            if !wa.tree.committable(&tip).contains(&id) && !wa.tree.gap(&tip).contains(&id) && !wa.txs.contains_key(&id) {
+                txs.push(tx);
+            }
+        }
+    }
+    if txs.is_empty() {
+        st.label("cycles:no-spendable-cell");
+        wa.node.stop();
+        return Ok(());
+    }
+    let mut spec = wa.plain_spec(&tip);
+    spec.proposals = txs.iter().map(|t| t.proposal_short_id()).collect();
+    let p = wa.tree.build(&tip, &spec, &wa.opts()).map_err(|e| Violation::new("harness:build", e))?;
+    if wa.node.submit(&p.block) != Ok(true) {
+        vfail!("valid-refused:proposing-block", "plain proposing block refused");
+    }
+    let mut cur = wa.tree.insert(p);
+    for _ in 1..close {
+        let spec = wa.plain_spec(&cur);
+        let f = wa.tree.build(&cur, &spec, &wa.opts()).map_err(|e| Violation::new("harness:build", e))?;
+        if wa.node.submit(&f.block) != Ok(true) {
+            vfail!("valid-refused:filler-block", "plain filler block refused");
+        }
+        cur = wa.tree.insert(f);
+    }
+    let mut spec = wa.plain_spec(&cur);
+    spec.txs = txs.clone();
+    let cand = wa.tree.build(&cur, &spec, &wa.opts()).map_err(|e| Violation::new("harness:build", e))?;
+    match wa.node.submit(&cand.block) {
+        Ok(true) => {}
+        other => vfail!("valid-refused:commit-under-the-default-cycle-limit", "block committing {} plain transactions refused under the default limit: {other:?}", txs.len()),
+    }
+    let Some(measured) = block_cycles(&wa.node, &cand.hash) else {
+        vfail!("state:block-ext-cycles", "no cycles recorded for the attached block #{}", cand.number);
+    };
+    if measured.len() != txs.len() || measured.iter().any(|c| *c == 0) {
+        vfail!("state:block-ext-cycles", "cycles {measured:?} recorded for {} script-carrying transactions", txs.len());
+    }
+    let sum: u64 = measured.iter().sum();
+    let others_max: u64 = wa
+        .tree
+        .order
+        .iter()
+        .filter_map(|h| block_cycles(&wa.node, h))
+        .map(|c| c.iter().sum::<u64>())
+        .max()
+        .unwrap_or(0);
+    let World { tree, txs: known_txs, _clock: clock, node, serial, .. } = wa;
+    node.stop();
+    // ---- phase 2: the same blocks under a limit at distance 0 / 1 of the candidate's sum
+    let delta: i64 = [0, -1, 1, 0, -1][case.delta as usize % 5];
+    let limit = (sum as i64 - delta) as u64; // delta = sum - limit
+    if others_max > limit {
+        st.label("cycles:a-history-block-costs-more-than-the-candidate(skipped)");
+        return Ok(());
+    }
+    if others_max == limit {
+        st.label("cycles:a-history-block-sits-exactly-at-the-limit");
+    }
+    cfg.max_block_cycles = Some(limit);
+    let env_b = build_env(&cfg);
+    if env_b.consensus.genesis_hash() != env_a.consensus.genesis_hash() {
+        return Err(Violation::new("harness:spec", "the cycle limit changed the genesis block"));
+    }
+    let mut wb = start_world(&env_b, tree, known_txs, clock, serial.get())?;
+    wb.set_now(now);
+    if wb.tip() != cur {
+        vfail!("valid-not-attached:chain-under-the-cycle-limit", "the chain below the cycle limit is not the tip on the second node");
+    }
+    let single = txs.len() == 1;
+    let name = match (delta, single) {
+        (0, _) => "valid:cycles=limit",
+        (-1, _) => "valid:cycles=limit-1",
+        (_, true) => "limit:cycles=limit+1:single-transaction",
+        (_, false) => "limit:cycles=limit+1:sum-of-transactions",
+    };
+    st.label(&format!("cycles:distance-to-limit={delta:+}"));
+    st.label(&format!("cycles:transactions={}", if single { "1" } else if txs.len() <= 4 { "2-4" } else { "5-12" }));
+    let tipn = wb.tree.get(&cur).number;
+    let past_boundary = wb.tree.get(&cur).epoch.number() >= 1;
+    let hash = cand.hash.clone();
+    let c = Cand { mb: cand, class: if delta <= 0 { Class::Valid } else { Class::Chain }, name };
+    evaluate(&mut wb, c, &cur, true, st).map_err(|mut v| {
+        v.detail = format!("[cycles measured {measured:?}, sum {sum}, limit {limit}] {}", v.detail);
+        v
+    })?;
+    if delta <= 0 {
+        let on_b = block_cycles(&wb.node, &hash);
+        if on_b.as_ref() != Some(&measured) {
+            vfail!("cycles:recorded-cycles-depend-on-the-limit", "cycles {measured:?} under the default limit, {on_b:?} under max_block_cycles = {limit}");
+        }
+    }
+    if tipn >= far + 2 && past_boundary {
+        st.nontrivial(&(serde_json::to_string(&case.plan).unwrap(), case.ntx, case.nin, case.delta, case.aux));
+        if st.want_sample() {
+            st.sample(|| json!({"sub": "limit-cycles", "variant": case.variant, "transactions": txs.len(), "measured_cycles": measured, "max_block_cycles": limit, "context_height": tipn, "candidate": name}));
+        }
+    }
+    wb.node.stop();
+    Ok(())
+}
+
+fn run(ctx: &Ctx) {
+    // development aid: VERIF_C03_SUBS=pow,limit-bytes runs only the named sub-checks
+    let only = std::env::var("VERIF_C03_SUBS").ok();
+    let want = |sub: &str| only.as_deref().map(|o| o.split(',').any(|x| x == sub)).unwrap_or(true);
+    ctx.shrink_iters.set(100);
+    if want("context-x-candidates") {
+        let cases = ctx.cases(1500, 12000);
+        ctx.run_prop("context-x-candidates", cases, case_strategy(), prop);
+    }
+    ctx.shrink_iters.set(60);
+    if want("pow") {
+        let cases = ctx.cases(200, 2600);
+        ctx.run_prop("pow", cases, pow_case_strategy(), prop_pow);
+    }
+    if want("limit-bytes") {
+        let cases = ctx.cases(160, 2000);
+        ctx.run_prop("limit-bytes", cases, size_case_strategy(), prop_size);
+    }
+    if want("limit-cycles") {
+        let cases = ctx.cases(96, 1200);
+        ctx.run_prop("limit-cycles", cases, cycle_case_strategy(), prop_cycles);
+    }
+}
+
+fn replay(ctx: &Ctx, sub: &str, v: &Value) -> Verdict {
     let mut st = ctx.stats.borrow_mut();
-    prop(&c, &mut st)
+    match sub {
+        "pow" => prop_pow(&from_case::<Case>(v)?, &mut st),
+        "limit-bytes" => prop_size(&from_case::<SizeCase>(v)?, &mut st),
+        "limit-cycles" => prop_cycles(&from_case::<CycleCase>(v)?, &mut st),
+        _ => prop(&from_case::<Case>(v)?, &mut st),
+    }
 }
 
 #[allow(dead_code)]
